@@ -171,7 +171,7 @@ def _bind_call(eng: Interp, c: Contract, a: NS, argv: list[Any], kwv: dict[str, 
 
 def _variants(c: Contract) -> list[dict[str, int]]:
     b = Builder()
-    for n, g in c.args + c.kwargs:
+    for n, g in c.ghosts + c.args + c.kwargs:
         g.make(n, b)
     space = b.choice_space
     if not space:
@@ -182,14 +182,17 @@ def _variants(c: Contract) -> list[dict[str, int]]:
     return out
 
 
-def verify(c: Contract, tier: str = "quick", replay: bool = True) -> Result:
+def verify(c: Contract, tier: str = "quick", replay: bool = True, chunk: tuple[int, int] = (0, 1)) -> Result:
     t0 = time.time()
     res = Result(contract=c.name, target=c.target, props=list(c.props), canary=c.canary)
     try:
-        variants = _variants(c)
-        res.variants = len(variants)
-        for ch in variants:
-            _verify_variant(c, tier, replay, res, ch)
+        if c.ground is not None:
+            _verify_ground(c, tier, res, chunk)
+        else:
+            variants = _variants(c)
+            res.variants = len(variants)
+            for ch in variants:
+                _verify_variant(c, tier, replay, res, ch)
     except (Unsupported, Budget) as ex:
         res.status = "undecided"
         res.error = f"{type(ex).__name__}: {ex}"
@@ -225,7 +228,7 @@ def _verify_variant(c: Contract, tier: str, replay: bool, res: Result, choice: d
         c.setup(eng)
     b = Builder(choice)
     vals: dict[str, Any] = {}
-    for n, g in c.args + c.kwargs:
+    for n, g in c.ghosts + c.args + c.kwargs:
         vals[n] = g.make(n, b)
     a = NS(vals)
     base: list[Any] = []
@@ -474,7 +477,7 @@ def plain_real(v: Any, depth: int = 0) -> Any:
     if type(v).__module__.startswith("pyoda_time") and hasattr(v, "__dict__"):
         return {"__class__": type(v).__name__, **{k: plain_real(x, depth + 1) for k, x in vars(v).items()}}
     if isinstance(v, SObj):
-        return {"__class__": v.cls.__name__, **{k: plain_real(x, depth + 1) for k, x in v.fields.items()}}
+        return {"__class__": v.cls.__name__, **{k: plain_real(x, depth + 1) for k, x in v.fields.items() if not k.startswith("$")}}
     from .values import SDict, SList
 
     if isinstance(v, SList):
@@ -503,10 +506,10 @@ def _crosscheck(c: Contract, vals: dict[str, Any], base: list[Any], choice: dict
         eng.max_paths = 200
         eng.loop_specs = {}
         eng.default_unroll = 10**6
-        if c.setup is not None:
+        eng.concrete_mode = True
+        if c.setup is not None and c.setup_in_crosscheck:
             c.setup(eng)
-        if c.allow_mutation is not None:
-            eng.allowed_mutation = c.allow_mutation
+        eng.allowed_mutation = c.allow_mutation if c.allow_mutation is not None else (lambda obj, name: True)
         a = NS(sym_vals)
         argv = [sym_vals[k] for k, _ in c.args if k != "cls"]
         kwv = {k: sym_vals[k] for k, _ in c.kwargs}
@@ -538,3 +541,99 @@ def _crosscheck(c: Contract, vals: dict[str, Any], base: list[Any], choice: dict
                 f"encoder cross-check failed for {c.name} on {_model_inputs(m, vals)}: interpreter {o.kind} {plain_real(o.value)!r} vs CPython {kind} {plain_real(value) if kind == 'ret' else repr(value)!r}"
             )
     res.stats["crosscheck_runs"] = res.stats.get("crosscheck_runs", 0) + done
+
+
+def _verify_ground(c: Contract, tier: str, res: Result, chunk: tuple[int, int]) -> None:
+    """G-mode: the function's finite input domain is enumerated completely.  Every instance is a ground VC:
+    the real function (identity-checked against the source text) is evaluated by CPython and the contract's
+    Python rendering is checked on the outcome; every `interp_stride`-th instance is additionally executed by the
+    symbolic interpreter on the extracted AST and the two outcomes must agree (guard A2).  A proof by exhaustive
+    cases over the stated finite domain, reported with backend `ground`."""
+    insts = list(c.ground())  # type: ignore[misc]
+    total = len(insts)
+    i, n = chunk
+    insts = insts[i::n]
+    if len(insts) == 0:
+        raise Unsupported("empty ground domain (vacuity guard)")
+    raw = resolve(c.target)
+    fn = extract.unwrap(raw)
+    if isinstance(fn, types.FunctionType) and not extract.identity_check(fn):
+        raise Unsupported(f"identity check failed for {c.target}")
+    eng = Interp()
+    eng.max_paths = 10**9
+    eng.default_unroll = 10**6
+    eng.concrete_mode = True
+    eng.allowed_mutation = c.allow_mutation if c.allow_mutation is not None else (lambda obj, name: True)
+    if c.setup is not None:
+        c.setup(eng)
+    stride = max(1, c.ground_interp_stride)
+    t_exec = 0.0
+    fails = 0
+    interp_runs = 0
+    seed = int(os.environ.get("VERIF_SEED", "0") or 0)
+    for idx, inst in enumerate(insts):
+        vals = dict(inst)
+        a = NS(vals)
+        t1 = time.time()
+        kind, value = call_real(c, vals, timeout_s=0) if False else _call_real_inline(c, raw, vals)
+        t_exec += time.time() - t1
+        res.n_obligations += 1
+        ok, why = eval_cases_concrete(c, a, kind, value)
+        if (idx + seed) % stride == 0:
+            # same instance through the interpreter (VC generated from the AST, all values concrete)
+            eng.memo.clear()
+            eng.obligations.clear()
+            argv = [vals[k] for k, _ in c.args if k != "cls"]
+            kwv = {k: vals[k] for k, _ in c.kwargs}
+            outs = eng.explore(_bind_call(eng, c, a, argv, kwv))
+            interp_runs += 1
+            if len(outs) != 1:
+                raise Unsupported(f"ground instance {inst} produced {len(outs)} interpreter outcomes")
+            o = outs[0]
+            same = (o.kind == "ret" and kind == "ret" and plain_real(o.value) == plain_real(value)) or (
+                o.kind == "raise" and kind == "raise" and o.value.etype.__name__ == type(value).__name__
+            )
+            if not same:
+                raise CheckerError(f"ground cross-check failed for {c.name} on {_plain(vals)}: interpreter {o.kind} {plain_real(o.value)!r} vs CPython {kind} {plain_real(value) if kind == 'ret' else repr(value)!r}")
+        if ok:
+            res.n_discharged += 1
+        else:
+            fails += 1
+            if len(res.failures) < 5:
+                plain = {k: _plain(v) for k, v in vals.items()}
+                res.failures.append({"name": f"{c.name}.ground{plain}", "kind": "ground", "status": "failed", "backend": "ground", "time_s": 0.0, "site": "", "detail": why, "inputs": plain, "replay": {"confirmed": True, "observed": f"{kind}: {_short(value)}", "why": why}})
+    if fails > len(res.failures):
+        res.failures.append({"name": f"{c.name}.ground(+{fails - len(res.failures)} more failing instances)", "kind": "ground", "status": "failed", "backend": "ground", "time_s": 0.0, "site": "", "detail": "further failing instances of the same contract", "inputs": None, "replay": {"confirmed": True, "note": "see the first instances"}})
+    res.interpreted.update(eng.interpreted)
+    if isinstance(fn, types.FunctionType):
+        res.interpreted.setdefault(extract.describe(fn), extract.source_hash(fn))
+    res.by_backend["ground"] = res.by_backend.get("ground", 0) + len(insts)
+    res.solver_time_s += t_exec
+    res.stats["ground_instances"] = res.stats.get("ground_instances", 0) + len(insts)
+    res.stats["ground_domain_size"] = total
+    res.stats["ground_interpreter_crosschecks"] = res.stats.get("ground_interpreter_crosschecks", 0) + interp_runs
+    res.vcs.append({"name": f"{c.name}.ground[{i}/{n}]", "kind": "ground", "status": "proved" if not fails else "failed", "backend": "ground", "time_s": round(t_exec, 3), "site": "", "instances": len(insts), "exhaustive_over_domain_of": total, "sample_instance": {k: _plain(v) for k, v in insts[0].items()}})
+
+
+def _call_real_inline(c: Contract, raw: Any, cvals: dict[str, Any]) -> tuple[str, Any]:
+    argv = [cvals[n] for n, _ in c.args if n != "cls"]
+    kwv = {n: cvals[n] for n, _ in c.kwargs}
+    try:
+        if isinstance(raw, property):
+            return ("ret", raw.fget(*argv))
+        if isinstance(raw, classmethod):
+            modname, _, path = c.target.partition(":")
+            owner = cvals.get("cls", resolve(modname + ":" + path.rsplit(".", 1)[0]))
+            return ("ret", raw.__func__(owner, *argv, **kwv))
+        if isinstance(raw, staticmethod):
+            return ("ret", raw.__func__(*argv, **kwv))
+        return ("ret", raw(*argv, **kwv))
+    except Exception as ex:  # noqa: BLE001
+        return ("raise", ex)
+
+
+def _eval_raise_concrete(c: Contract, a: NS, ev: ExcValue) -> tuple[bool, str]:
+    cases = [k for k in c.cases if k.kind == "raise" and any(issubclass(ev.etype, e) for e in k.exc)]
+    if any((k.when(a) if k.when is not None else True) is True for k in cases):
+        return True, "ok"
+    return False, f"raised {ev.etype.__name__} at {ev.site} where the contract does not allow it"
